@@ -209,7 +209,8 @@ def gen_case(draw):
     extra = draw(rows_strategy(sysd, 1))[0]
     k = draw(st.integers(0, n - 1))
     return dict(system=sysd, rows=rows, W=W, proc=proc, batch_size=bs, op=op, perm=list(perm), extra=extra, k=k,
-                layout=draw(st.sampled_from(["C", "F", "strided"])), entry=draw(st.sampled_from(["function", "function", "estimator"])))
+                layout=draw(st.sampled_from(["C", "F", "strided"])), entry=draw(st.sampled_from(["function", "function", "estimator"])),
+                verbose=draw(st.sampled_from([0, 0, 1])))
 
 
 def body_gen(case):
@@ -246,8 +247,10 @@ def body_gen(case):
     B2 = gens.with_layout(B2, case.get("layout"))
     W2 = None if W2 is None else gens.with_layout(W2, case.get("layout"))
     entry = case.get("entry", "function")
-    with calling(f"{proc}(batch_size={bs!r}, n_samples={B2.shape[0]}, rows {op}, layout {case.get('layout')}, entry {entry})"):
-        got = run_proc(proc, sv, B2, W2, bs, opt, entry=entry)
+    vb = case.get("verbose", 0)
+    with calling(f"{proc}(batch_size={bs!r}, n_samples={B2.shape[0]}, rows {op}, layout {case.get('layout')}, entry {entry}, verbose={vb})"):
+        # verbose=1 iterates through a progress bar (silenced through TQDM_DISABLE): only the display may differ
+        got = run_proc(proc, sv, B2, W2, bs, dict(opt, verbose=1) if vb else opt, entry=entry)
     if op == "append":
         got_cmp = (got[0][:n], got[1][:n])
         check(got[0].shape[0] == n + 1, "gen:shape", f"{got[0].shape[0]} result rows for {n + 1} targets")
@@ -266,7 +269,7 @@ def body_gen(case):
             sfx = ":explicit-solver-unconverged" if (type(e).__name__ == "SolverError" and "solver" in opt) else ""
             raise Violation(f"gen:reference-exception:{type(e).__name__}{sfx}", f"{proc} on a single row raised {type(e).__name__}: {str(e)[:200]}")
         compare(proc, sv, B2[-1:], None if W2 is None else W2[-1:], alone, (got[0][-1:], got[1][-1:]), tol, "gen:alone")
-    labs = sv.labels() + [proc, f"op:{op}", "W" if W is not None else "noW", f"layout:{case.get('layout')}", f"entry:{entry}"]
+    labs = sv.labels() + [proc, f"op:{op}", "W" if W is not None else "noW", f"layout:{case.get('layout')}", f"entry:{entry}", f"verbose:{vb}"]
     m = B2.shape[0]
     bsi = m if bs == "full" else (1 if bs is None else bs)
     if bsi > m:
